@@ -625,6 +625,20 @@ func (b *BaseStore) Load(ctx context.Context, amount int) error {
 	ctx, span := b.tracer.Start(ctx, "store-load")
 	defer span.End()
 
+	// a load ends with its caller's context or with the store, whichever
+	// comes first: closing the store must not leave a load waiting for a
+	// block (for up to the fetch timeout) with the join lock held
+	ctx, cancel := context.WithCancel(ctx)
+	defer cancel()
+
+	go func() {
+		select {
+		case <-b.ctx.Done():
+			cancel()
+		case <-ctx.Done():
+		}
+	}()
+
 	if amount <= 0 && b.options.MaxHistory != nil {
 		amount = *b.options.MaxHistory
 	}
